@@ -34,7 +34,7 @@ OPTS = [dict(safe=s, keep_imports=k, preserve=p, max_line_length=l)
 
 
 def bounds(tier):
-    return {"option_combinations": 16, "per_skeleton": 2 if tier == "quick" else "2 on all, 16 on a subset",
+    return {"option_combinations": 16, "per_skeleton": "2 (16 on six; the per-rule programs outside the sample of 30: unsafe mode only)" if tier == "quick" else "2 on all, 16 on a subset",
             "pool": "harvested snippets + grammar programs + literal-sensitive families"}
 
 
@@ -72,12 +72,20 @@ def obligations(tier, seed):
         sks = hv + gr + lit[::5] + c17[::6] + pointless[::2] + loopv
     # hand-written per-rule programs (the shapes that the harvested snippets cannot reach), through the pipeline
     fam = rulefam.skeletons()
-    sks = sks + (rnd.sample(fam, 30) if quick else fam) + rulefam.layout_skeletons()
+    fam_sample = rnd.sample(fam, 30) if quick else fam
+    sks = sks + fam_sample + rulefam.layout_skeletons()
     obs = []
     full = set(id(s) for s in (rnd.sample(sks, 6) if quick else rnd.sample(sks, 60)))
     base = [OPTS[0], OPTS[8]]  # safe / unsafe with defaults
+    # quick tier: the rest of the hand-written per-rule programs through the pipeline once (unsafe mode) - a change
+    # that needs one particular shape must not depend on the seed's sample of 30
+    once = set()
+    if quick:
+        rest = [sk for sk in fam if all(sk is not x for x in fam_sample)]
+        once = set(id(s) for s in rest)
+        sks = sks + rest
     for sk in sks:
-        combos = OPTS if id(sk) in full else base
+        combos = [OPTS[8]] if id(sk) in once else (OPTS if id(sk) in full else base)
         for o in combos:
             tr = _tname(sk, o)
             obs.append(Obligation("fc/%s/%s" % (_oid(o), sk.sid), pool.ob_tv,
